@@ -416,6 +416,52 @@ def g_ns(max_elems, flags="c", with_attr=True):
     return out
 
 
+def g_ns_attr(flags="c", sample=None, seed=1):
+    """3-element trees (chain and siblings) x per element {declaration, tag prefix, prefixed attribute} x
+    {no child, first child, second child written through an entity}: scopes that interact with attributes,
+    empty-element tags and entity boundaries"""
+    decls = [None, ("p", "u1"), ("p", "u2"), ("", "u1")]
+    per = list(itertools.product(range(len(decls)), ["", "p"], [None, "p"]))
+    out = []
+    for shape in tree_shapes(3):
+        for assign in itertools.product(per, repeat=3):
+            for hoisted in (None, 1, 2):
+                it = iter(assign)
+                elems = []
+
+                def build(sh):
+                    di, pi, ai = next(it)
+                    e = spec.Elem(pi, "e%d" % len(elems), [(ai, "k", "1")] if ai is not None else [],
+                                  [decls[di]] if decls[di] else [], [])
+                    elems.append(e)
+                    e.children = [build(c) for c in sh]
+                    return e
+                root = build(shape)
+                exp = spec.expected_content(root)
+                if hoisted is None:
+                    doc = spec.render_plain(root)
+                else:
+                    target = elems[hoisted]
+                    inner = spec.render_plain(target)
+
+                    def rp(e):
+                        if e is target:
+                            return "&h;"
+                        t = "<" + spec.qname(e.prefix, e.local)
+                        for p_, u in e.decls:
+                            t += " xmlns%s='%s'" % ((":" + p_) if p_ else "", u)
+                        for p_, l, v in e.attrs:
+                            t += " %s='%s'" % (spec.qname(p_, l), v)
+                        if not e.children:
+                            return t + "/>"
+                        return t + ">" + "".join(rp(c) for c in e.children) + "</" + spec.qname(e.prefix, e.local) + ">"
+                    doc = "<!DOCTYPE e0 [<!ENTITY h \"" + inner + "\">]>" + rp(root)
+                out.append(Case(doc, flags, True, meta={"gen": "ns-attr-tree", "hoisted": hoisted, "expect_content": exp}))
+    if sample is not None and sample < len(out):
+        out = random.Random(seed).sample(out, sample)
+    return out
+
+
 # ---------------------------------------------------------------------------------------------
 # G-cst: random abstract documents rendered with random layout (C03..C07, C13, C18 ...)
 # ---------------------------------------------------------------------------------------------
